@@ -262,9 +262,13 @@ FilterLaw == OnlyOps({"filter", "sink"}) => \A s \in 1..NS : IsSubSeqOf(E(s).out
 AssignLaw ==
   (OnlyOps({"assign"}) /\ \A j \in 1..Len(prog) : PlainAssign(prog[j]) /\ \A m \in 1..Len(prog[j].outs) : Len(prog[j].outs[m].p) = 1) =>
      \A s \in 1..NS : ~E(s).err =>
-        /\ Len(E(s).out) = Len(Streams[s])
-        /\ \A i \in 1..Len(Streams[s]) : \A q \in {A, B, K("n")} :
-              (q \notin UNION {AssignKeys(prog[j]) : j \in 1..Len(prog)}) => Get(E(s).out[i], q) = Get(Streams[s][i], q)
+        LET keep == {A, B, K("n")} \ UNION {AssignKeys(prog[j]) : j \in 1..Len(prog)} IN
+        /\ (~Skip => Len(E(s).out) = Len(Streams[s]))
+        /\ Len(E(s).out) <= Len(Streams[s])
+        \* every delivered record carries the untouched keys of one input record (its own: the records differ in a)
+        /\ \A i \in 1..Len(E(s).out) : \E m \in 1..Len(Streams[s]) :
+              \A q \in keep : Get(E(s).out[i], q) = Get(Streams[s][m], q)
+        /\ (~Skip => \A i \in 1..Len(Streams[s]) : \A q \in keep : Get(E(s).out[i], q) = Get(Streams[s][i], q))
 \* a sink sees exactly the records that reach it, once each
 SinkLaw ==
   \A s \in 1..NS : \A j \in 1..Len(prog) : (prog[j].op = "sink" /\ ~E(s).err /\ ~Skip) =>
